@@ -73,13 +73,52 @@ pub fn alphabet() -> Vec<ClusterCommand> {
     ]
 }
 
-fn kind_name(c: &ClusterCommand) -> String {
-    let v = serde_json::to_value(c).unwrap_or(Value::Null);
-    v.as_object().and_then(|o| o.keys().next().cloned()).unwrap_or_else(|| "?".into())
+/// A log entry of the explored alphabet: a replicated command, or one of the two other payload kinds
+/// the state machine sees (blank entries of a new leader, membership changes). The latter were added
+/// after seeded change C35 (membership stamped with the end of its apply batch) slipped through a
+/// command-only alphabet.
+#[derive(Clone, Debug)]
+pub enum Sym {
+    Cmd(ClusterCommand),
+    Blank,
+    Member(Vec<u64>),
 }
 
-fn entries_of(alpha: &[ClusterCommand], log: &[usize]) -> Vec<Ent> {
-    log.iter().enumerate().map(|(i, c)| ent(1, i as u64 + 1, alpha[*c].clone())).collect()
+pub fn symbols() -> Vec<Sym> {
+    let mut v: Vec<Sym> = alphabet().into_iter().map(Sym::Cmd).collect();
+    v.push(Sym::Blank);
+    v.push(Sym::Member(vec![1, 2, 3]));
+    v.push(Sym::Member(vec![1, 2]));
+    v
+}
+
+fn kind_name(c: &Sym) -> String {
+    match c {
+        Sym::Cmd(c) => {
+            let v = serde_json::to_value(c).unwrap_or(Value::Null);
+            v.as_object().and_then(|o| o.keys().next().cloned()).unwrap_or_else(|| "?".into())
+        }
+        Sym::Blank => "BlankEntry".into(),
+        Sym::Member(_) => "MembershipEntry".into(),
+    }
+}
+
+fn entries_of(alpha: &[Sym], log: &[usize]) -> Vec<Ent> {
+    log.iter()
+        .enumerate()
+        .map(|(i, c)| match &alpha[*c] {
+            Sym::Cmd(cmd) => ent(1, i as u64 + 1, cmd.clone()),
+            Sym::Blank => util::blank_ent(1, i as u64 + 1),
+            Sym::Member(nodes) => util::membership_ent(1, i as u64 + 1, nodes),
+        })
+        .collect()
+}
+
+/// What is compared: the replicated state the coordinator reads plus the store's own
+/// `last_applied_state()` (applied log id, stored membership and the log id it is stamped with).
+fn observe(store: &mut Store) -> Result<String, String> {
+    let applied = err_str(store.applied_state_json(), "last_applied_state")?;
+    Ok(format!("{} | {applied}", store.shared_state_json()))
 }
 
 /// Batches of a log of length n for a cut mask: bit j set ⇔ a batch ends after entry j (0-based,
@@ -117,7 +156,7 @@ fn run_batching(store: &mut Store, entries: &[Ent], mask: u32) -> Result<String,
         err_str(store.append(entries[a..b].to_vec()), "append_to_log")?;
         err_str(store.apply(&entries[a..b]), "apply_to_state_machine")?;
     }
-    Ok(store.shared_state_json())
+    observe(store)
 }
 
 fn run_snapshot(src: &mut Store, dst: &mut Store, entries: &[Ent], at: usize) -> Result<String, String> {
@@ -131,7 +170,7 @@ fn run_snapshot(src: &mut Store, dst: &mut Store, entries: &[Ent], at: usize) ->
         err_str(dst.append(entries[at..].to_vec()), "append_to_log (target)")?;
         err_str(dst.apply(&entries[at..]), "apply_to_state_machine (target)")?;
     }
-    Ok(dst.shared_state_json())
+    observe(dst)
 }
 
 thread_local! {
@@ -164,12 +203,12 @@ fn reset(store: &mut Store, blank: &Blank) -> Result<(), String> {
 }
 
 struct Ctx {
-    alpha: Vec<ClusterCommand>,
+    alpha: Vec<Sym>,
     blank: Blank,
 }
 
 fn log_readable(ctx: &Ctx, log: &[usize]) -> Vec<String> {
-    log.iter().map(|c| serde_json::to_string(&ctx.alpha[*c]).unwrap_or_default()).collect()
+    log.iter().map(|c| match &ctx.alpha[*c] { Sym::Cmd(cmd) => serde_json::to_string(cmd).unwrap_or_default(), other => format!("{other:?}") }).collect()
 }
 
 /// One batching execution; `fresh` = on a new store, otherwise on this worker's long-lived
@@ -426,7 +465,7 @@ fn self_test() {
     assert_eq!(batches(3, 0b11), vec![(0, 1), (1, 2), (2, 3)]);
     let a = alphabet();
     assert_eq!(a.len(), 22);
-    let kinds: std::collections::BTreeSet<String> = a.iter().map(kind_name).collect();
+    let kinds: std::collections::BTreeSet<String> = a.iter().cloned().map(Sym::Cmd).map(|s| kind_name(&s)).collect();
     assert_eq!(kinds.len(), 16, "every ClusterCommand kind is in the alphabet");
     assert_eq!(CASE_NAMES.len(), 35);
 }
@@ -453,7 +492,7 @@ pub fn run(args: &Args) -> ! {
     mc::quiet_panics();
     self_test();
     util::init_scratch("C35");
-    let ctx = Ctx { alpha: alphabet(), blank: blank_snapshot() };
+    let ctx = Ctx { alpha: symbols(), blank: blank_snapshot() };
 
     if let Some(path) = &args.replay {
         let case = mc::load_replay(path);
@@ -550,7 +589,7 @@ pub fn run(args: &Args) -> ! {
     util::remove_scratch();
 
     rep.rule = format!(
-        "Exhaustive: every command log of length ≤ {max_len} over 22 commands (all 16 ClusterCommand kinds, colliding keys w1/g1/m1/c1/mod1) × stores {{MemStore, RocksStore}} × every batching (2^(n-1) cut masks; append_to_log + apply_to_state_machine per batch) and × every snapshot index 0..=n × (source store, target store) ∈ {{mem, rocks}}² (apply prefix, build_snapshot, install_snapshot on the other store, apply the rest); the published replicated state (sorted JSON) must equal the entry-by-entry run on a fresh MemStore. Plus the 35 case functions of openraft::testing::Suite (34 store cases + transfer_snapshot) on a fresh MemStore and a fresh RocksStore each. states = distinct final replicated states; transitions = executions. Non-trivial = a batching with a batch of ≥ 2 entries, a snapshot strictly inside the log, or a suite case."
+        "Exhaustive: every log of length ≤ {max_len} over 25 entry symbols (22 commands covering all 16 ClusterCommand kinds on colliding keys w1/g1/m1/c1/mod1, a blank entry, two membership entries) × stores {{MemStore, RocksStore}} × every batching (2^(n-1) cut masks; append_to_log + apply_to_state_machine per batch) and × every snapshot index 0..=n × (source store, target store) ∈ {{mem, rocks}}² (apply prefix, build_snapshot, install_snapshot on the other store, apply the rest); the published replicated state (sorted JSON) together with last_applied_state() (applied log id, stored membership and its log id) must equal the entry-by-entry run on a fresh MemStore. Plus the 35 case functions of openraft::testing::Suite (34 store cases + transfer_snapshot) on a fresh MemStore and a fresh RocksStore each. states = distinct final replicated states; transitions = executions. Non-trivial = a batching with a batch of ≥ 2 entries, a snapshot strictly inside the log, or a suite case."
     );
     rep.assume(&format!("RocksStore executions for logs of length ≤ {fresh_len} use a fresh RocksDB directory each; for longer logs each worker keeps two long-lived RocksStores (a DB open costs 20–300 ms on this machine) that are returned to the empty replicated state between executions by installing, through the real install_snapshot, the snapshot an empty store builds; a discrepancy seen on a long-lived store is re-run on fresh directories and reported under its ordinary signature only if it reproduces there"));
     rep.assume("only the replicated CoordinatorState is compared (the property speaks of the replicated state); apply responses, last_applied and membership are covered by the conformance suite part");
